@@ -55,7 +55,9 @@ class TArchiveScope
 public:
 	explicit TArchiveScope(SerializationContext& serializationContext) noexcept
 		: mSerializationContext(serializationContext)
-	{ }
+	{
+		BITSERIALIZER_VERIF_SCOPE_EVENT("open", this);
+	}
 
 	TArchiveScope(const TArchiveScope&) = delete;
 	TArchiveScope& operator=(const TArchiveScope&) = delete;
@@ -69,8 +71,13 @@ public:
 	[[nodiscard]] const SerializationOptions& GetOptions() const noexcept	{ return mSerializationContext.GetOptions(); }
 
 protected:
+#if defined(BITSERIALIZER_VERIF)
+	~TArchiveScope() { BITSERIALIZER_VERIF_SCOPE_EVENT("close", this); }
+	TArchiveScope(TArchiveScope&& other) noexcept : mSerializationContext(other.mSerializationContext) { BITSERIALIZER_VERIF_SCOPE_EVENT("move", this, &other); }
+#else
 	~TArchiveScope() = default;
 	TArchiveScope(TArchiveScope&&) noexcept = default;
+#endif
 
 private:
 	SerializationContext& mSerializationContext;
